@@ -114,3 +114,42 @@ Proof.
   induction defs as [|[k w] d IH]; simpl; intros s H; [discriminate|].
   destruct (String.eqb name k); [inversion H; reflexivity|]. apply IH. assumption.
 Qed.
+
+Lemma entry_schema_strip : forall ps ap k,
+    entry_schema (map (fun ks => (fst ks, strip_unique (snd ks))) ps)
+                 (match ap with Some s => Some (strip_unique s) | None => None end) k
+    = match entry_schema ps ap k with Some s => Some (strip_unique s) | None => None end.
+Proof.
+  intros ps ap k. unfold entry_schema.
+  assert (H : assoc k (map (fun ks : string * schema => (fst ks, strip_unique (snd ks))) ps)
+              = match assoc k ps with Some s => Some (strip_unique s) | None => None end).
+  { induction ps as [|[k' s] ps IH]; simpl; [reflexivity|]. destruct (String.eqb k k'); [reflexivity|exact IH]. }
+  rewrite H. destruct (assoc k ps); reflexivity.
+Qed.
+
+Lemma combine_strip : forall ss (l : list json) s' x,
+    In (s', x) (combine (map strip_unique ss) l) -> exists s, s' = strip_unique s /\ In (s, x) (combine ss l).
+Proof.
+  induction ss as [|s0 ss IH]; intros l s' x H; simpl in H; [contradiction|].
+  destruct l as [|y l]; simpl in H; [contradiction|]. destruct H as [H|H].
+  - inversion H; subst. exists s0. split; [reflexivity|left; reflexivity].
+  - destruct (IH _ _ _ H) as [s [H1 H2]]. exists s. split; [assumption|right; assumption].
+Qed.
+
+(** removing every "uniqueItems" only weakens a schema *)
+Theorem strip_unique_weakens : forall defs S j, Valid defs S j -> Valid (strip_defs defs) (strip_unique S) j.
+Proof.
+  intros defs S j V. induction V.
+  - simpl. apply V_all. intros s' Hs'. apply in_map_iff in Hs'. destruct Hs' as [s [<- Hs]]. auto.
+  - simpl. eapply V_any; [apply in_map; eassumption|assumption].
+  - simpl. eapply V_ref; [apply assoc_strip; eassumption|assumption].
+  - simpl. apply V_obj. intros k v s' Hin He. rewrite entry_schema_strip in He.
+    destruct (entry_schema ps ap k) as [s|] eqn:E; [|discriminate]. inversion He; subst. eauto.
+  - simpl. apply V_obj_other. assumption.
+  - simpl. apply V_items. auto.
+  - simpl. apply V_items_other. assumption.
+  - simpl. apply V_tuple. intros s' x Hx. destruct (combine_strip _ _ _ _ Hx) as [s [-> Hs]]. eauto.
+  - simpl. apply V_tuple_other. assumption.
+  - destruct S; simpl in *; try discriminate; try (apply V_leaf; assumption).
+    apply V_all. intros s [].
+Qed.
